@@ -30,6 +30,10 @@ from collections import Counter
 HERE = os.path.dirname(os.path.dirname(os.path.abspath(__file__)))
 REPO = os.path.realpath(os.environ.get("VERIF_REPO", "/repo"))
 DEBUG = os.environ.get("VERIF_DEBUG", "") not in ("", "0")
+try:
+    THOROUGH_SCALE = max(0.1, float(os.environ.get("VERIF_THOROUGH_SCALE", "4") or 4))
+except ValueError:
+    THOROUGH_SCALE = 4.0
 
 # ---------------------------------------------------------------------------------------------
 # verdicts
@@ -295,6 +299,10 @@ def _shard(args):
             if only and sub.name not in only:
                 continue
             n_total = n_override if n_override else getattr(sub, tier)
+            if tier == "thorough" and not n_override:
+                # module counts were calibrated on a loaded machine; on 16 idle cores they take 1-4 minutes, so the
+                # thorough tier multiplies them (VERIF_THOROUGH_SCALE, default 4; wall budgets still cap every sub)
+                n_total = int(n_total * THOROUGH_SCALE)
             # Hypothesis starts every run with the simplest example: give each shard at least `per_shard_min`
             # cases so that small case counts are not spent on identical minimal examples
             nshards = max(1, min(jobs, n_total // max(1, sub.per_shard_min)))
